@@ -5,19 +5,21 @@ import BioCantor.Proofs.QualGroup
 namespace BioCantor.Proofs.Qual
 open BioCantor BioCantor.Spec.Qual BioCantor.Model.Qual
 
-/-- the regex alternatives of the model and the documented reserved keys of the spec are the same set -/
-theorem terms_perm : biocantorQualifierTerms.isPerm reservedKeys = true := by decide +kernel
+/-- TIE: the regex alternatives computed from the GENERATED enums
+    (`{name.lower(), value}` over the non-alias members of BioCantorQualifiers ∪ BioCantorGFF3ReservedQualifiers)
+    are exactly the documented reserved keys of the spec.  A changed / added member in /repo breaks this. -/
+theorem terms_tie : sameSet biocantorQualifierTerms reservedKeys = true := by decide +kernel
 
 theorem reservedMatch_exact (k : Str) : reservedMatch true k = reservedKeys.contains k := by
   unfold reservedMatch
   simp only [if_true]
-  have hp := List.isPerm_iff.mp terms_perm
+  have hp := sameSet_iff.mp terms_tie
   rw [Bool.eq_iff_iff, List.any_eq_true, List.contains_iff_mem]
   constructor
   · rintro ⟨t, ht, he⟩
-    rw [← beq_iff_eq.mp he]; exact hp.mem_iff.mp ht
+    rw [← beq_iff_eq.mp he]; exact (hp t).mp ht
   · intro hk
-    exact ⟨k, hp.mem_iff.mpr hk, beq_self_eq_true k⟩
+    exact ⟨k, (hp k).mpr hk, beq_self_eq_true k⟩
 
 theorem sortedWeak_of_pairwise : ∀ {l : List Str}, l.Pairwise (fun a b => strLe a b = true) → sortedWeak l = true
   | [], _ => rfl
